@@ -65,7 +65,7 @@ def _task(X):
            'content_params': set(), 'problems': {}, 'raise_sites': set(), 'caught': set(), 'dict_reads': set(),
            'dict_other': set(), 'stores_per_pair': set(), 'key_compared': set(), 'sub_data': set(), 'sub_flags': set(),
            'order': set(), 'returned': set(), 'newline_checked': set(), 'version': set(), 'format': set(),
-           'yields_per_path': set(), 'le_values': set(), 'decode_enc': set()}
+           'yields_per_path': set(), 'le_values': set(), 'decode_enc': set(), 'util_encoding': set()}
     for p in paths:
         evs = p.events
         yields = [e for e in evs if e.kind == 'yield']
@@ -147,6 +147,15 @@ def _task(X):
                     desc.append((k, 'option', option_origin(v)))
             out['content_params'].add(tuple(desc))
             le = loc.get('line_endings')
+        # encoding handed to the newline helpers: must be the very encoding the content function was given
+        for e in enters:
+            enc_local = e.data['locals'].get('encoding')
+            for e2 in evs:
+                if e2.kind == 'summary-call' and 'encoding' in e2.data['args'] and cf in e2.stack:
+                    a_ = e2.data['args']['encoding']
+                    same = a_ is enc_local or (is_concrete(a_) and is_concrete(enc_local) and concrete(a_) == concrete(enc_local))
+                    out['util_encoding'].add((e2.data['callee'].name, 'same' if same else
+                                              'other:%s' % (concrete(a_) if is_concrete(a_) else getattr(a_, 'name', '?'),)))
         # indentation stripping: regex sub events inside the content function
         subs = [e for e in evs if e.kind == 'regex-apply' and e.data['mode'] == 'sub' and e.fi is cf]
         decs = [e for e in evs if e.kind == 'decode' and e.fi is cf]
